@@ -144,9 +144,19 @@ class Config:
                 return s.replace(local_config_dir, replace_config_dir)
             return s
 
+        def escape_interpolation(s):
+            # Section values are read interpolated, so a literal dollar (written `$$` in the INI
+            # file) comes back as `$`. Escape it again, otherwise read_dict() either rejects the
+            # value ("invalid interpolation syntax") or re-interpolates a literal `${...}`.
+            if isinstance(s, str):
+                return s.replace("$", "$$")
+            return s
+
         def convert_to_dict(path, obj):
             if isinstance(obj, SectionProxy):
-                result[path] = {k: substitute_config_dir(v) for k, v in obj.items()}
+                result[path] = {
+                    k: escape_interpolation(substitute_config_dir(v)) for k, v in obj.items()
+                }
                 return
             for key in obj.keys():
                 convert_to_dict(f"{path}.{key}" if path else key, obj[key])
